@@ -115,7 +115,9 @@ CHECKS["C05"] = {
             "membership, addresses, catalogue) behind an untouched 8-byte header, for every record size (length prefix => a shorter record after a longer one decodes correctly); "
             "an acknowledged write_last_applied_log changes only the header; init returns exactly the values the image holds (for images > 20 bytes; the <= 20 byte case is the "
             "recorded finding S5); and each actor-level saver (write_hard_state, write_member, write_node_addr, add_node_addr, write_logs, write_snapshots) replaces exactly its own "
-            "fields of the in-memory record and hands exactly that record to the writer — so interleaved catalogue saves cannot clobber a vote.",
+            "fields of the in-memory record and hands exactly that record to the writer — so interleaved catalogue saves cannot clobber a vote. init of a fresh file leaves an image that "
+            "holds exactly (last-applied 0, default record) behind a RAW 8-byte header (clause @S21, after the repair of S21). The actor wrappers (A-WAIT) and the DTO<->protobuf conversion "
+            "are covered by an always-on BOUNDED stand-in: a real RaftIndexManager actor, 6343 save sequences, the index file re-read with the real init after every acknowledged save.",
     "note": "A-WAIT: the async actor wrappers are outside Verus (async blocks) and modelled by a shim; protobuf wire format uninterpreted with unique decodability assumed; DTO<->message "
             "round trip assumed; big-endian id helpers assumed; FileMessageReader::read_next assumed here, proved in unit filereader under A-FULLREAD; no crash model (flush is a no-op).",
 }
@@ -201,9 +203,12 @@ CHECKS["C01"] = {
             "instances, cache to theirs) and to nobody else; load_complete announces the end once to each waiting component; load_log / LogRecordLoaderInstance::load replay a stored "
             "record as exactly the messages of its request (shared with C07). The record CODECS of the components and the snapshot file format are outside Verus (prost / quick-protobuf "
             "/ serde, async file actors): they are covered by an always-on BOUNDED stand-in that writes a real snapshot file from real component actors, restores it into fresh "
-            "actors, replays the rest of the log and compares every observable answer (9240 history x compaction-point runs) — labelled bounded, not proof.",
-    "note": "Not covered: the FileStore / RaftSnapshotManager / RaftLogManager actor chains that pick the snapshot file and the log range at start-up, partial snapshot files of an "
-            "interrupted compaction, crash points (C04); the log itself is C02/C03. Known finding S20: the id counter of a table is not in the snapshot (latent: no caller issues "
+            "actors (wired by the real bean factory), replays the rest of the log and compares every observable answer (9240 history x compaction-point runs), and by a second "
+            "always-on BOUNDED stand-in that runs the REAL start-up sequence (StateApplyManager::init -> load_index -> load_snapshot -> load_log with the real index, log and "
+            "snapshot managers) over a copy of a real data directory (35 history x compaction-point runs) — both labelled bounded, not proof. The single-file log layer "
+            "(unit loginner: write / init / read_records / reopen theorem, proved) also serves this property.",
+    "note": "Not covered by proof: the FileStore / RaftSnapshotManager / RaftLogManager actor chains that pick the snapshot file and the log range at start-up (bounded stand-in only); "
+            "not covered at all: partial snapshot files of an interrupted compaction, crash points (C04), multi-file logs in the restart runs. Known finding S20: the id counter of a table is not in the snapshot (latent: no caller issues "
             "table ids in this version). The direct cache (sessions) is not in the statement's list and is not compared; it does lose every entry at restore "
             "(CacheValue::to_do writes timeout 0), noted in DESIGN as an observation.",
 }
